@@ -951,6 +951,22 @@ def run(ctx):
         raise
     except Exception as ex:
         ctx.correspondence_broken("boundedlive-crashed", repr(ex)[:400])
+    # VM level: the collector is not observable (premise of gc_schedule_transparent: the roots handed to
+    # gc_run contain everything still in use) — every corpus and generated program under forced schedules
+    try:
+        from checks.parts import gcschedule
+        from lib import vmcheck as _vmcheck
+        progs = _vmcheck.corpus_programs()
+        progs += _vmcheck.generated_programs(os.path.join(ctx.outdir, "gcs_gen"), ctx.seed, 20 if ctx.tier == "quick" else 300)
+        gcschedule.run_gcschedule(ctx, progs,
+                                  mems=(0, 700) if ctx.tier == "quick" else (0, 700, 250, 3000),
+                                  schedules=("default", "every", "seed:%d" % (ctx.seed + 2)) if ctx.tier == "quick"
+                                  else ("default", "every") + tuple("seed:%d" % (ctx.seed * 7 + k) for k in range(4)))
+        shutil.rmtree(os.path.join(ctx.outdir, "gcs_gen"), ignore_errors=True)
+    except common.BuildError:
+        raise
+    except Exception as ex:
+        ctx.correspondence_broken("gcschedule-crashed", repr(ex)[:400])
     ctx.coverage["exhaustive"] = False
     ctx.coverage["rule"] = (
         "operation histories generated by driving the extracted Coq model (every emitted op is accepted by "
